@@ -35,11 +35,21 @@
 (*          o = [value]                                                    *)
 (*  Static  o additionally: head (box of the written head table), ubox     *)
 (*          (union of the header boxes of the written, non-empty glyphs)   *)
+(*          cffVstore / cffPrivVar (CFF2: the written table still has a     *)
+(*          VariationStore / a Private DICT with vsindex or blend)          *)
+(*  CffGlyph (CFF2, see Cff2Instance.tla)                                  *)
+(*          a = [gid, kind, fd (Font DICT of the glyph), fdDvs (vsindex    *)
+(*               entry of every Private DICT, -1 none), nG, nL, gsubrs,    *)
+(*               lsubrs (sparse tables [i, b]), regions (per               *)
+(*               ItemVariationData: its regions), coords, code (the source *)
+(*               charstring), generated, exp (generated: the commands      *)
+(*               MC_Cff2Instance computed), norm, reported, ntol]          *)
+(*          o = [code (the written charstring), nG, nL, gsubrs, lsubrs]    *)
 (*  Failed  a = [user, stage, generated], o = [err]                        *)
 (* Every number is judged by Variation!Within1 against the exact rational  *)
 (* value; at the default coordinates equality with the source is required. *)
 (***************************************************************************)
-EXTENDS Variation, Json, IOUtils, TLC, SequencesExt
+EXTENDS Cff2Instance, Json, IOUtils, TLC, SequencesExt
 
 Rec == ndJsonDeserialize(IOEnv.TRACE)
 
@@ -105,7 +115,32 @@ JudgeStatic(e) ==
              \cup (IF ~o.loads THEN {<<"loads", 0, <<>>, <<>>>>} ELSE {})
              \cup (IF o.glyphs # o.srcGlyphs THEN {<<"glyph-count", 0, <<o.glyphs>>, <<o.srcGlyphs>>>>} ELSE {})
              \cup HeadBoxBad(o.head, o.ubox)
+             \cup (IF o.cffVstore THEN {<<"cff-vstore", 0, <<>>, <<>>>>} ELSE {})
+             \cup (IF o.cffPrivVar THEN {<<"cff-private-variable", 0, <<>>, <<>>>>} ELSE {})
   IN Report(e, -1, "", e.a.user, bad)
+
+\* ---- CffGlyph ----------------------------------------------------------------------------
+\* rr, s are operator parameters so that each machine runs once per event
+JudgeCffWith(e, rr, s) ==
+  LET a == e.a
+      r == rr.m
+  IN IF ~CffJudged(r)
+     THEN IF a.generated
+          THEN PrintT(<<"MISMATCH", ToJson([i |-> e.i, case |-> e.case, ev |-> e.ev, clause |-> "transport",
+                                            gid |-> a.gid, kind |-> a.kind, idx |-> 0, got |-> r.why, want |-> "done",
+                                            coords |-> a.coords, nbad |-> 1])>>)
+          ELSE PrintT(<<"OUTSIDE", ToJson([i |-> e.i, case |-> e.case, gid |-> a.gid, why |-> r.why])>>)
+     ELSE /\ Report(e, a.gid, a.kind, a.coords, CffBad(a, e.o, r, rr.steps, s))
+          /\ IF a.norm = <<>> \/ NormReported(a) THEN TRUE
+             ELSE PrintT(<<"MISMATCH", ToJson([i |-> e.i, case |-> e.case, ev |-> e.ev, clause |-> "normalized",
+                                               gid |-> a.gid, kind |-> a.kind, idx |-> 0, got |-> a.reported,
+                                               want |-> a.norm, coords |-> a.coords, nbad |-> 1])>>)
+          /\ IF ~a.generated \/ r.cmds = a.exp THEN TRUE
+             ELSE PrintT(<<"MISMATCH", ToJson([i |-> e.i, case |-> e.case, ev |-> e.ev, clause |-> "transport",
+                                               gid |-> a.gid, kind |-> a.kind, idx |-> 0, got |-> r.cmds,
+                                               want |-> a.exp, coords |-> a.coords, nbad |-> 1])>>)
+          /\ PrintT(<<"CFFSTAT", ToJson(CffStat(a, r, rr.steps))>>)
+JudgeCff(e) == JudgeCffWith(e, CffRun(SrcFC(e.a), e.a.code), T2!Interp(OutFC(e.o), e.o.code))
 
 \* ---- Failed ------------------------------------------------------------------------------
 \* The property speaks about successful instances; an error is not a violation by itself.  A
@@ -130,6 +165,7 @@ TNext ==
      CASE e.ev = "Glyph"  -> JudgeGlyph(e)
        [] e.ev = "Metric" -> JudgeMetric(e)
        [] e.ev = "Static" -> JudgeStatic(e)
+       [] e.ev = "CffGlyph" -> JudgeCff(e)
        [] e.ev = "Failed" -> JudgeFailed(e)
        [] OTHER           -> PrintT(<<"UNMODELLED", e.ev>>)
 
